@@ -19,7 +19,8 @@ func TestVerifGuidOracle(t *testing.T) {
 	opts := NewOptions()
 	opts.Logger = nil
 	opts.LogLevel = LOG_FATAL
-	opts.TCPAddress, opts.HTTPAddress, opts.HTTPSAddress = "127.0.0.1:0", "127.0.0.1:0", ""
+	opts.TCPAddress, opts.HTTPAddress = vfLoop2()
+	opts.HTTPSAddress = ""
 	opts.DataPath = t.TempDir()
 	opts.ID = int64(vfEnvInt("VERIF_NODEID", 1023))
 	nsqd, err := New(opts)
@@ -125,7 +126,8 @@ func TestVerifGuidTopicBurst(t *testing.T) {
 	opts := NewOptions()
 	opts.Logger = nil
 	opts.LogLevel = LOG_FATAL
-	opts.TCPAddress, opts.HTTPAddress, opts.HTTPSAddress = "127.0.0.1:0", "127.0.0.1:0", ""
+	opts.TCPAddress, opts.HTTPAddress = vfLoop2()
+	opts.HTTPSAddress = ""
 	opts.DataPath = t.TempDir()
 	opts.ID = int64(vfEnvInt("VERIF_NODEID", 1))
 	nsqd, err := New(opts)
